@@ -36,15 +36,15 @@ from engine.ch import ok
 
 THOROUGH = os.environ.get('C28_TIER') == 'thorough'
 IDX_LO, IDX_HI = (-6, 6) if THOROUGH else (-2, 4)        # list index range (lists have 2..4 items)
-SL_LO, SL_HI = (-3, 4) if THOROUGH else (-1, 1)          # slice bound range (None is always included)
-STEPS = (None, 2, -1, 1, -2) if THOROUGH else (None, 2)
+SL_LO, SL_HI = (-2, 3) if THOROUGH else (-1, 1)          # slice bound range (None is always included)
+STEPS = (None, 2, -1) if THOROUGH else (None, 2)
 NSTEP = len(STEPS)
 N_LO, N_HI = (-1, 3) if THOROUGH else (0, 2)             # repeat count for *=
 NSHAPE = 7 if THOROUGH else 4                            # value shapes (see value())
 NSEQ = 6 if THOROUGH else 4                              # iterable-argument shapes (see iterable() / mapping())
 NONLIST = (1, 2, 5) if THOROUGH else (1, 2)              # iterable shapes that are neither list nor dict: tuple, iterator, generator
 NNONLIST = len(NONLIST)
-NSLSHAPE = 4 if THOROUGH else 2                          # value shapes used by the slice-assignment harnesses
+NSLSHAPE = 3 if THOROUGH else 2                          # value shapes used by the slice-assignment harnesses
 
 db = None
 J = R = None
@@ -163,12 +163,12 @@ def value(A):
         return 1.5                       # no __index__: refused
     if A.kind == 'str':
         if s == 0: return 'a' if v > 0 else 'c'
-        if s == 1: return v              # wrong item type
+        if s == 1: return 7              # wrong item type (concrete: ArrayConverter.validate calls int.__index__, which realises)
         return 'b'
     if A.kind == 'float':
         if s == 0: return 0.5 if v > 0 else 2.5
         if s == 1: return 'a'            # wrong item type
-        if s == 2: return v              # an int: accepted through __index__
+        if s == 2: return 3              # an int: accepted through __index__ (concrete: int.__index__ realises a symbolic int)
         return 0.5
     raise AssertionError(A.kind)
 
@@ -445,6 +445,7 @@ def read(target, table, op, A):
         try:
             o, attr, aname, root, c, parent, key = _load(target)
             cache = o._session_cache_
+            if not wrapped(root, o, attr): return False
             before = plain(root)
             try: table[op][1](c, A)
             except Exception: pass
